@@ -73,6 +73,10 @@ CHECKS = {
    technique="deviation-bounded DFS (CHESS-style) over device completion order, burst size and written length on the real OwningQueue (vsock receive, sound events) and VirtIOInput event queue, for runs of 4x the queue size",
    text="Runs of 32 (vsock) and 128 (input, sound) events so that every buffer is reused several times; all executions with up to the stated number of departures from oldest-first / burst 1 / full length are explored: each event is delivered once, in completion order, with exactly the device's bytes, and after every poll every token is either posted or awaiting consumption exactly once (the consumed buffer is re-posted under the same token before the call returns).",
    note="Trusts the reference event device (lab/src/c19.rs). Short writes into input/sound event buffers are device faults and belong to C07."),
+ "C20": dict(level="model_checking", design="DESIGN.md §4 C20",
+   technique="deviation-bounded DFS over public operation sequences of the real GPU, sound, entropy, clock and 9P drivers against reference devices decoding every chain from the specification's structures, with the device's response an explored choice; exhaustive EDID sweeps through the real get_edid path; platform ledger hook for backing memory; checked and release profiles",
+   text="GPU: every sequence (bounded depth) over resolution, flush, cursor set-up/move, change_resolution over four sizes, setup_framebuffer and get_edid with honest / error / wrong-success responses (<= 2 per run): field-exact command encodings and required order, an error for every non-success response and no further commands after it, backing memory inside live DMA at attach time and never freed while attached (absent errors). Sound: parameter validation, field-exact control requests, per-status results, PCM data arriving exactly once in order in chunks <= period tagged with the stream id, non-blocking transfers completed in any order with per-token status, no transfer before parameters. Entropy/clock/9P: request shapes, byte order and results for every explored device answer. EDID: all 2^24 (quick 2^18) combinations of the decoded preferred-timing bits, all 2^16 values of a standard timing, ordering pairs and size values.",
+   note="Trusts the reference devices (lab/src/c20.rs, c20_sound.rs) written from virtio spec 5.7, 5.14, virtio-rtc and VESA E-EDID. Blocking pcm_xfer is explored with in-order completion only."),
 }
 
 NOT_YET = "check not built yet in this round (machinery under construction; see DESIGN.md)"
